@@ -21,7 +21,7 @@ func init() {
 		ID:          "C07",
 		Level:       "other",
 		Run:         runC07,
-		Explanation: "Structural necessary conditions of 'no panic, no hang, errors as values': R07.1 every branch taken on a non-nil error returns that error (all functions of the variants with an error result); R07.2 trap-freedom of the ISA layer by the zone analysis (division/remainder dominated by a zero test returning an error, no signed unmasked shift count, memory[k] within the sibling MemoryRead length, two-result label lookups); R07.3 every switch whose default panics covers its whole enumeration; R07.4 lock discipline of the MSI controllers (acquire kind = release kind in each completion closure; the kind recorded with a handle matches the table's release kind; flush deletes from the table it ranges over); R07.5 every registration of a pending line fetch is completed or cleared by the pipeline flush; R07.6 the completion predicate guarding the fall-off-the-end exit covers every bus and every pipeline unit. Termination, deadlock/livelock freedom and the cycle bound are liveness properties of a cycle-level simulator with unbounded counters and are NOT decided (no sound static argument in reach). R07.11 every instruction fetch is under a bound test; R07.12 the one-line-per-access data path looks at more than the first byte address of an access; R07.13 a loop that waits for a buffered bus to be empty reconnects the bus in its body; R07.24 the flush of a unit written as a suspendable coroutine returns it to its start; R07.25 every snoop job completes the command it serves (the requester waits on it) and a completed command leaves the table; R07.23 every loop of the CPU (main loop, drains) that keeps running while a bus, coroutine or unit is busy steps that component in its body; R07.14 a mutex held across coroutine steps is recorded in the unit and released by its flush; R07.15 the shared components on Run's path (incl. the coroutine stepping primitive: a unit that completes returns to its start, IsStart is the idleness the completion predicates test) equal their total reference models; R07.16 the jump-resolution notification redirects unconditionally; R07.17 every execute-unit step performed by Run has its error field inspected; R07.18 a pending line fetch is registered under the address it is completed under. R07.19 every buffered bus of the CPU is connected at the top level of the main loop; R07.20 the flag that holds ret behind an unresolved conditional branch is cleared when the branch resolves, taken or not. R07.21 every mutex acquired in a function is released in it; R07.22 after a completion closure released a line lock the handle recorded for the flush is deleted from its table. R07.27 the scoreboard entries raised at dispatch are released for every kind of execution the write unit accepts (register result, store, nothing to write) and for a store the execute unit performs in place. R07.28 a bool flag the control unit raises when it dispatches is lowered at the top level of every step or by a notification. R07.30 the write-back of a line skips the bytes below 0 and leaves at the first byte not below the length of the image (no store at index len). R07.31 the CPU's bool helpers consulted by the drain loops answer true only if every component they test did test empty. R07.32 the entry of an access coroutine resets and suspends only its own coroutine and forgets lock handles only from a table it records them in.",
+		Explanation: "Structural necessary conditions of 'no panic, no hang, errors as values': R07.1 every branch taken on a non-nil error returns that error (all functions of the variants with an error result); R07.2 trap-freedom of the ISA layer by the zone analysis (division/remainder dominated by a zero test returning an error, no signed unmasked shift count, memory[k] within the sibling MemoryRead length, two-result label lookups); R07.3 every switch whose default panics covers its whole enumeration; R07.4 lock discipline of the MSI controllers (acquire kind = release kind in each completion closure; the kind recorded with a handle matches the table's release kind; flush deletes from the table it ranges over); R07.5 every registration of a pending line fetch is completed or cleared by the pipeline flush; R07.6 the completion predicate guarding the fall-off-the-end exit covers every bus and every pipeline unit. Termination, deadlock/livelock freedom and the cycle bound are liveness properties of a cycle-level simulator with unbounded counters and are NOT decided (no sound static argument in reach). R07.11 every instruction fetch is under a bound test; R07.12 the one-line-per-access data path looks at more than the first byte address of an access; R07.13 a loop that waits for a buffered bus to be empty reconnects the bus in its body; R07.24 the flush of a unit written as a suspendable coroutine returns it to its start; R07.25 every snoop job completes the command it serves (the requester waits on it) and a completed command leaves the table; R07.23 every loop of the CPU (main loop, drains) that keeps running while a bus, coroutine or unit is busy steps that component in its body; R07.14 a mutex held across coroutine steps is recorded in the unit and released by its flush; R07.15 the shared components on Run's path (incl. the coroutine stepping primitive: a unit that completes returns to its start, IsStart is the idleness the completion predicates test) equal their total reference models; R07.16 the jump-resolution notification redirects unconditionally; R07.17 every execute-unit step performed by Run has its error field inspected; R07.18 a pending line fetch is registered under the address it is completed under. R07.19 every buffered bus of the CPU is connected at the top level of the main loop; R07.20 the flag that holds ret behind an unresolved conditional branch is cleared when the branch resolves, taken or not. R07.21 every mutex acquired in a function is released in it; R07.22 after a completion closure released a line lock the handle recorded for the flush is deleted from its table. R07.27 the scoreboard entries raised at dispatch are released for every kind of execution the write unit accepts (register result, store, nothing to write) and for a store the execute unit performs in place. R07.28 a bool flag the control unit raises when it dispatches is lowered at the top level of every step or by a notification. R07.30 the write-back of a line skips the bytes below 0 and leaves at the first byte not below the length of the image (no store at index len). R07.31 the CPU's bool helpers consulted by the drain loops answer true only if every component they test did test empty. R07.32 the entry of an access coroutine resets and suspends only its own coroutine and forgets lock handles only from a table it records them in. R07.33 an execute unit that waits for its cache controller returns its own coroutine to the start once the access is done.",
 		Assumptions: []string{
 			"stdlib functions do not panic on the arguments passed",
 		},
@@ -1053,6 +1053,8 @@ func runC07(r *Run) {
 	ruleLineSpan(r, "R07.12")
 	r.floor("R07.13", 14)
 	ruleDrainLoopsConnect(r, "R07.13")
+	r.floor("R07.33", 6)
+	ruleUnitResetsWhenAccessDone(r, "R07.33")
 	r.floor("R07.32", 10)
 	ruleAccessOwnsItsBookkeeping(r, "R07.32")
 	r.floor("R07.31", 10)
